@@ -70,7 +70,7 @@ class Ctx:
             self.cov["build_s"] = round(time.time() - t, 1)
 
     # ------------------------------------------------------------------ TLC
-    def tlc(self, spec_dir, module, cfg_text, name, workers=None, simulate=None, env=None,
+    def tlc(self, spec_dir, module, cfg_text, name, workers=None, simulate=None, depth=None, env=None,
             timeout=600, dfs=False, coverage=False, expect_error=False):
         """run TLC on spec_dir/module.tla with the given cfg text; returns (output, stats)"""
         d = os.path.join(self.work, name)
@@ -89,6 +89,8 @@ class Ctx:
                os.path.join(d, "meta"), "-cleanup", "-noGenerateSpecTE", "-config", cfg]
         if simulate:
             cmd += ["-simulate", simulate, "-seed", str(self.seed)]
+            if depth:
+                cmd += ["-depth", str(depth)]
         if coverage:
             cmd += ["-coverage", "1"]
         cmd += [module + ".tla"]
@@ -291,7 +293,8 @@ class Ctx:
               "violations": len(self.violations)}
         with open(os.path.join(EVIDENCE, self.pid + ".json"), "w") as f:
             json.dump(ev, f, indent=1)
-        shutil.rmtree(self.work, ignore_errors=True)
+        if not os.environ.get("VERIF_KEEP"):
+            shutil.rmtree(self.work, ignore_errors=True)
         log("%s %s: %s in %.0fs (states=%d, scenarios=%d, traces validated=%d, known findings=%d)" % (
             self.pid, self.tier, "VIOLATED" if self.violations else "held", time.time() - self.t0, cov["states"],
             cov["scenarios_generated"], cov["traces_validated_against_impl"], len(self.known_hit)))
